@@ -140,6 +140,7 @@ FIX_COMMITS = [
     'ea8105c fix: emit the verify scriptlet given to the builder and add its accessor',
     '8440da6 fix: destinations without a file name or a strippable parent are errors, not panics',
     'ccd6ccb fix: split a NEVRA at its last two dashes so that names may contain dashes',
+    '83d41a2 fix: collect the users and groups to create in ordered sets',
 ]
 
 PROPS['C06'] = dict(
@@ -151,9 +152,9 @@ PROPS['C06'] = dict(
     technique='contract-based deductive verification (Verus): block contracts on verbatim statement ranges + function contracts on the accessors',
 )
 PROPS['C11'] = dict(
-    level='proof', verus=['c11_clamp', 'c10_sign'],
+    level='proof', verus=['c11_clamp', 'c10_sign', 'c11_order'],
     trusted_base=[A_TOOLS, A_EXTRACT, 'BLOCK contracts: the three clamping statements are verbatim statement ranges of prepare_data / build_and_sign wrapped into synthetic functions over their free variables (the clock reading `now` is a parameter); the enclosing functions are not verified'],
-    assumptions=['claimed for the SECOND sentence only ("no timestamp - build time, file modification times, signature creation time - is later than the source date"). The FIRST sentence (byte-identical packages across runs and processes: HashSet iteration order, clock, TZ) is relational over process environments and is NOT decided',
+    assumptions=['claimed: the SECOND sentence ("no timestamp - build time, file modification times, signature creation time - is later than the source date") and, of the FIRST sentence, the one source of nondeterminism the property names: the user() / group() recommends entries are appended in the ASCENDING order of the sets\' contents, i.e. as a function of the builder state and not of a per-instance hash seed (unit c11_order: the set type is read from the declaring statements, a stand-in HashSet iterates in an arbitrary per-instance order, a stand-in BTreeSet in ascending order as std documents). Byte-identity of whole packages across processes (clock without source date, TZ, every other collection of the 750-line prepare_data) is relational over process environments and is NOT decided',
                  'R11: `<` on Timestamp is the order of the seconds (derived PartialOrd on the tuple struct)',
                  'that the clamped values are the ones written to the header / handed to sign_with_timestamp is glue outside the blocks; from there on the timestamp is followed: sign_with_timestamp hands exactly it to Signing::sign (unit c10_sign), and the first statements of the pgp Signer::sign (block c11_sig_creation_time, chrono / pgp types as stand-ins) put exactly it into the SignatureCreationTime subpacket; pgp serialising that subpacket faithfully is trusted'],
     explanation='For every clock reading and every file mtime: the recorded file mtime, RPMTAG_BUILDTIME and the signature timestamp are min(source date, value) when a source date is set (hence never later than it) and the value itself otherwise; the OpenPGP creation-time subpacket built by the pgp signer carries exactly the timestamp it is handed.',
